@@ -837,7 +837,9 @@ func (up4 *UP4) unsafeReleaseInternalApplicationID(appFilter up4ApplicationFilte
 	}
 }
 
-func (up4 *UP4) addInternalApplicationIDAndGetP4rtEntry(pdr pdr) (*p4.TableEntry, uint8, error) {
+// addInternalApplicationIDAndGetP4rtEntry returns the entry to write if the application is new, its ID,
+// and whether the PDR was not registered as a user of the application before.
+func (up4 *UP4) addInternalApplicationIDAndGetP4rtEntry(pdr pdr) (*p4.TableEntry, uint8, bool, error) {
 	up4.applicationMu.Lock()
 	defer up4.applicationMu.Unlock()
 
@@ -846,16 +848,16 @@ func (up4 *UP4) addInternalApplicationIDAndGetP4rtEntry(pdr pdr) (*p4.TableEntry
 		// application already exists, increment 'usedBy'.
 		// since we use Set usedBy will not be incremented if
 		// application was already created for this UE session + PDR ID.
-		up4Application.usedBy.Add(internalAppReference{
+		newUser := up4Application.usedBy.Add(internalAppReference{
 			pdr.fseID, pdr.pdrID,
 		})
 
-		return nil, up4Application.id, nil
+		return nil, up4Application.id, newUser, nil
 	}
 
 	newAppID, err := up4.unsafeAllocateInternalApplicationID()
 	if err != nil {
-		return nil, 0, err
+		return nil, 0, false, err
 	}
 
 	up4Application := internalApp{
@@ -868,13 +870,14 @@ func (up4 *UP4) addInternalApplicationIDAndGetP4rtEntry(pdr pdr) (*p4.TableEntry
 
 	applicationsEntry, err := up4.p4RtTranslator.BuildApplicationsTableEntry(pdr, up4.conf.SliceID, newAppID)
 	if err != nil {
-		up4.unsafeReleaseInternalApplicationID(appFilter)
-		return nil, 0, ErrOperationFailedWithReason("build P4rt table entry for Applications table", err.Error())
+		// the ID is not registered yet: it goes straight back to the pool
+		up4.applicationIDsPool = append(up4.applicationIDsPool, newAppID)
+		return nil, 0, false, ErrOperationFailedWithReason("build P4rt table entry for Applications table", err.Error())
 	}
 
 	up4.applicationIDs[appFilter] = up4Application
 
-	return applicationsEntry, up4Application.id, nil
+	return applicationsEntry, up4Application.id, true, nil
 }
 
 func (up4 *UP4) removeInternalApplicationIDAndGetP4rtEntry(pdr pdr) (*p4.TableEntry, uint8) {
@@ -1399,16 +1402,15 @@ func (up4 *UP4) modifyUP4ForwardingConfiguration(pdrs []pdr, allFARs []far, qers
 		// as a default value is installed if no application filtering rule exists
 		var applicationID uint8 = DefaultApplicationID
 
-		// set if this PDR is the first user of its application filter: if the write fails,
-		// the application must not stay behind as allocated
-		var newApplicationEntry *p4.TableEntry
+		// set if this PDR was not a user of its application filter before: if the write fails,
+		// the PDR (and an application allocated for it) must not stay behind as registered
+		var newApplicationUser bool
 
 		if !pdr.IsAppFilterEmpty() {
 			if methodType != p4.Update_DELETE {
-				if entry, appID, err = up4.addInternalApplicationIDAndGetP4rtEntry(pdr); err == nil {
+				if entry, appID, newApplicationUser, err = up4.addInternalApplicationIDAndGetP4rtEntry(pdr); err == nil {
 					if entry != nil {
 						entriesToApply = append(entriesToApply, entry)
-						newApplicationEntry = entry
 					}
 
 					applicationID = appID
@@ -1464,13 +1466,15 @@ func (up4 *UP4) modifyUP4ForwardingConfiguration(pdrs []pdr, allFARs []far, qers
 		err = up4.p4client.ApplyTableEntries(methodType, entriesToApply...)
 		if err != nil {
 			releaseNewApplication := func() {
-				if newApplicationEntry == nil {
+				if !newApplicationUser {
 					return
 				}
 
-				up4.removeInternalApplicationIDAndGetP4rtEntry(pdr)
-				// the entry may or may not have been written; make sure it is gone
-				_ = up4.p4client.ApplyTableEntries(p4.Update_DELETE, newApplicationEntry)
+				// if the PDR was the only user, the applications entry may or may not have been
+				// written; make sure it is gone
+				if unused, _ := up4.removeInternalApplicationIDAndGetP4rtEntry(pdr); unused != nil {
+					_ = up4.p4client.ApplyTableEntries(p4.Update_DELETE, unused)
+				}
 			}
 
 			p4Error, ok := err.(*P4RuntimeError)
